@@ -189,3 +189,20 @@ func recvTypeOf(fn *types.Func) types.Type {
 	}
 	return nil
 }
+
+// isProtoMsgPtr: *T where T is a struct of an rqlite protobuf package (…/proto).
+func isProtoMsgPtr(t types.Type) bool {
+	if t == nil {
+		return false
+	}
+	p, ok := types.Unalias(t).Underlying().(*types.Pointer)
+	if !ok {
+		return false
+	}
+	n, ok := types.Unalias(p.Elem()).(*types.Named)
+	if !ok || n.Obj().Pkg() == nil {
+		return false
+	}
+	path := n.Obj().Pkg().Path()
+	return isRqlitePkg(path) && len(path) > 6 && path[len(path)-6:] == "/proto"
+}
